@@ -235,7 +235,9 @@ func runFaultIsolation(fnNames ...string) func(p *Prog, r *Report) {
 					return true
 				})
 				if nErr == 0 {
-					r.Add("E10.fault-isolation", fn.Name, "loop over Paths", p.Pos(rs), Undecided, "no error test found in the loop over all paths", true)
+					// errors are tested in another form (err == nil { use }, a predicate helper):
+					// nothing leaves the loop; that a failed result is not used is E17.unchecked-result's part
+					r.Add("E10.fault-isolation", fn.Name, "loop over Paths", p.Pos(rs), OK, "nothing leaves the loop over all paths", true)
 				}
 				return true
 			})
@@ -634,47 +636,93 @@ func runJSONRemainder(p *Prog, r *Report) {
 			continue
 		}
 		info := fn.Info()
+		// is e, evaluated in DecodeBody, the remainder returned by PartialContent?
+		isRemainder := func(e ast.Expr) (bool, string) {
+			id, ok := ast.Unparen(e).(*ast.Ident)
+			if !ok {
+				return false, ""
+			}
+			o := info.ObjectOf(id)
+			as := fn.Assignments(o)
+			if len(as) != 1 {
+				return false, ""
+			}
+			s, ok := as[0].(*ast.AssignStmt)
+			if !ok || len(s.Rhs) != 1 || len(s.Lhs) != 3 {
+				return false, ""
+			}
+			c, ok := ast.Unparen(s.Rhs[0]).(*ast.CallExpr)
+			if !ok {
+				return false, ""
+			}
+			if cf := calleeOf(info, c); cf == nil || fname(cf) != "PartialContent" {
+				return false, ""
+			}
+			if lid, ok := s.Lhs[1].(*ast.Ident); ok && info.ObjectOf(lid) == o {
+				return true, "receiver is the remainder returned by " + exprStr(c)
+			}
+			return false, ""
+		}
+		judge := func(in *Func, call *ast.CallExpr, recv ast.Expr, via *ast.CallExpr) {
+			n++
+			construct := exprStr(call)
+			okr, detail := false, ""
+			if via == nil {
+				okr, detail = isRemainder(recv)
+			} else if id, ok := ast.Unparen(recv).(*ast.Ident); ok {
+				// inside a helper: the receiver is a parameter; what DecodeBody passes for it
+				po := in.Info().ObjectOf(id)
+				idx := -1
+				k := 0
+				for _, f := range in.Type.Params.List {
+					for _, nm := range f.Names {
+						if in.Info().ObjectOf(nm) == po {
+							idx = k
+						}
+						k++
+					}
+				}
+				if idx >= 0 && idx < len(via.Args) && len(in.Assignments(po)) == 0 {
+					okr, detail = isRemainder(via.Args[idx])
+					construct += " in " + bareFuncName(in) + ", called with " + exprStr(via.Args[idx])
+				}
+			}
+			if okr {
+				r.Add("E10.json-remainder", fn.Name, construct, p.Pos(call), OK, detail, true)
+			} else {
+				r.Add("E10.json-remainder", fn.Name, construct, p.Pos(call), Violated,
+					"JustAttributes is not called on the remainder of PartialContent: items already decoded as blocks or attributes are returned again", true)
+			}
+		}
+		scan := func(in *Func, via *ast.CallExpr) {
+			ast.Inspect(in.Body, func(m ast.Node) bool {
+				call, ok := m.(*ast.CallExpr)
+				if !ok {
+					return true
+				}
+				f := calleeOf(in.Info(), call)
+				if f == nil || fname(f) != "JustAttributes" {
+					return true
+				}
+				if sel, ok := ast.Unparen(call.Fun).(*ast.SelectorExpr); ok {
+					judge(in, call, sel.X, via)
+				}
+				return true
+			})
+		}
+		scan(fn, nil)
+		// helpers of the same package that DecodeBody hands a body to
 		ast.Inspect(fn.Body, func(m ast.Node) bool {
 			call, ok := m.(*ast.CallExpr)
 			if !ok {
 				return true
 			}
-			f := calleeOf(info, call)
-			if f == nil || fname(f) != "JustAttributes" {
+			cf := calleeOf(info, call)
+			if cf == nil || cf.Pkg() != fn.Pkg.Types {
 				return true
 			}
-			sel, ok := ast.Unparen(call.Fun).(*ast.SelectorExpr)
-			if !ok {
-				return true
-			}
-			n++
-			construct := exprStr(call)
-			okr := false
-			detail := ""
-			if id, ok := ast.Unparen(sel.X).(*ast.Ident); ok {
-				o := info.ObjectOf(id)
-				as := fn.Assignments(o)
-				if len(as) == 1 {
-					if s, ok := as[0].(*ast.AssignStmt); ok && len(s.Rhs) == 1 && len(s.Lhs) == 3 {
-						if c, ok := ast.Unparen(s.Rhs[0]).(*ast.CallExpr); ok {
-							if cf := calleeOf(info, c); cf != nil && fname(cf) == "PartialContent" {
-								if lid, ok := s.Lhs[1].(*ast.Ident); ok && info.ObjectOf(lid) == o {
-									okr = true
-									detail = "receiver is the remainder returned by " + exprStr(c)
-								}
-							}
-						}
-					}
-				}
-			}
-			if !okr {
-				// alternative: every store into content.Attributes fed from this call is under a lookup miss
-				detail = "JustAttributes is not called on the remainder of PartialContent: items already decoded as blocks or attributes are returned again"
-			}
-			if okr {
-				r.Add("E10.json-remainder", fn.Name, construct, p.Pos(call), OK, detail, true)
-			} else {
-				r.Add("E10.json-remainder", fn.Name, construct, p.Pos(call), Violated, detail, true)
+			if t := p.FuncOf[cf]; t != nil && t.Body != nil && t != fn {
+				scan(t, call)
 			}
 			return true
 		})
